@@ -248,6 +248,36 @@ def check_large_scalars(rep, tier):
                     judge(rep, 'streaming', spec_s, cdc, d, run_streaming(dec, d, schema))
 
 
+def check_flat_runs(rep, tier):
+    """long FLAT inputs: thousands of small complete elements side by side (nesting depth 1 or 2 by their own lengths) - empty
+    or too-short explicit tags, empty containers and strings. An element that claims fewer octets than the element inside it
+    needs must be refused there and then: a decoder that reads the siblings as if they were nested runs out of stack
+    (RecursionError) on an input no deeper than two"""
+    from pyasn1.type import tag as _tag, univ, namedtype
+    ex_int = univ.Integer().subtype(explicitTag=_tag.Tag(_tag.tagClassContext, _tag.tagFormatSimple, 0))
+    ex_seq = univ.Sequence(componentType=namedtype.NamedTypes(namedtype.NamedType('a', ex_int)))
+    pats = ['a000', 'a001', 'a002', 'a003a001', 'a00302', 'bf1f00', 'bf1f01', 'a100a000', '3000', '2400', '0400', '0500',
+            'a0020500', 'a0030500', 'a0010500', '6000', 'e001', 'a080', '30800000']
+    for pat in pats:
+        unit = bytes.fromhex(pat)
+        for count in ((700, 2000) if tier == 'quick' else (400, 700, 1000, 2000, 5000)):
+            if pat == 'a080' and count > 150:
+                count = 150           # genuinely nested (one level per repetition): kept below the fixed depth bound
+            body = unit * count
+            for wrap in ('bare', 'in-seq'):
+                data = body if wrap == 'bare' else (b'\x30\x82' + len(body).to_bytes(2, 'big') + body if len(body) < 65536 else None)
+                if data is None:
+                    continue
+                for schema in (None, ex_int, ex_seq):
+                    spec_s = 'flat:%s*%d/%s/%s' % (pat, count, wrap, type(schema).__name__ if schema is not None else 'none')
+                    rep.case('flat-run ' + spec_s, nontrivial=True)
+                    rep.count('flat-runs')
+                    for cdc in ('ber', 'cer', 'der'):
+                        dec = codec.DEC[cdc]
+                        judge(rep, 'oneshot', spec_s, cdc, data, run_oneshot(dec, data, schema))
+                        judge(rep, 'streaming', spec_s, cdc, data, run_streaming(dec, data, schema, max_items=count + 10))
+
+
 def has_text(t):
     k = t[0]
     if k == 'str':
@@ -339,6 +369,7 @@ def run(rep, tier, seed):
         rep.case('corpus ' + h)
         check_input(rep, drv, data, specs, tier)
     check_large_scalars(rep, tier)
+    check_flat_runs(rep, tier)
     # exhaustive small inputs
     maxlen = 3 if tier == 'thorough' else 2
     for n in range(0, maxlen + 1):
